@@ -98,6 +98,36 @@ Owner(k, c, es, rs, p) ==
 
 
 ---------------------------------------------------------------------------
+\* C18: caller-controlled counts and sizes must fit the field that encodes them; otherwise the operation is refused
+NCalls(e, o) == Len(SelectSeq(CallsOf(e), LAMBDA c : c.o = o))
+PciFits(p) == Val(p.dev) < 32 /\ Val(p.fn) < 8
+OpFits(k, c, es, rs, e) ==
+  CASE e.op = "add_processor" -> 20 + 4 * NCalls(e, "add_cache") <= 255                    \* one-byte node length
+    [] e.op = "add_xor_interleave_math" -> NCalls(e, "add_xormap") <= 255                  \* one-byte bitmap count
+    [] e.op = "add_memory_side_cache" -> NCalls(e, "add_smbios_handle") <= 65535           \* two-byte handle count
+    [] e.op = "add_iommu" -> 32 + 8 * Len(OptList(e.a, "wires")) <= 65535 /\ ("pci" \in DOMAIN e.a => PciFits(e.a.pci))
+    [] e.op = "add_pcie_root_complex" -> 16 + 20 * Len(OptList(e.a, "maps")) <= 65535
+    [] e.op = "add_platform" -> 12 + Len(e.a.name) + 1 + 20 * Len(OptList(e.a, "maps")) <= 65535
+    [] e.op = "add_controller" -> Len(EntryBytes(e, rs)) <= 65535 /\ NCalls(e, "add_resource") <= 65535
+                                  /\ \A i \in 1..Len(CallsOf(e)) : Len(ResBytes(CallsOf(e)[i].a.v)) <= 65535
+    [] e.op = "add_isa_string" -> 8 + Len(e.a.str) + 2 <= 65535
+    [] e.op = "add_hart_info" -> 12 + 4 * (1 + NCalls(e, "with_cmo")) <= 65535
+    [] k = "VIOT" /\ IsAdd(e) ->                         \* 16-bit node count and 16-bit node offsets
+         /\ NAdds(es) + 1 <= 65535
+         /\ 48 + FoldLeft(LAMBDA acc, x : acc + (IF x.op \in {"add_pci_range", "add_mmio_endpoint"} THEN 24 ELSE 16), 0, es) <= 65535
+         /\ (e.op \in {"add_virtio_pci_iommu"} => PciFits(e.a.pci))
+         /\ (e.op = "add_pci_range" => PciFits(e.a.first) /\ PciFits(e.a.last))
+    [] e.op = "add_imsic" -> ~HasOp(es, "add_imsic")
+    [] e.op = "set_log_area" -> ~HasOp(es, "set_log_area")
+    [] e.op = "add_generic_initiator" -> (e.a.handle.t = "pci" => PciFits(e.a.handle))
+    [] e.op = "add_port_association" -> PciFits(e.a)
+    [] e.op = "pci_sbdf" -> PciFits(e.a)
+    [] e.op \in {"add_aer_root_port", "add_aer_device", "add_aer_bridge"} -> (e.a.ctor # "global" => PciFits(e.a.pci))
+    [] OTHER -> TRUE
+\* SLIT: localities^2 bytes must be representable in the 32-bit Length
+CtorFits(k, c) == k = "SLIT" => c.n <= 65535
+
+---------------------------------------------------------------------------
 \* one predicate per property, over (kind, ctor, entries, returned handles, image)
 P_C01(k, img) == k \in ChecksummedKinds => (Sum8(img) = 0 /\ (k = "RSDP" => Len(img) >= 20 /\ Sum8(Slice(img, 0, 20)) = 0))
 P_C02(k, img) == LET o == IF k = "RSDP" THEN 20 ELSE 4 IN Len(img) >= o + 4 /\ Slice(img, o, 4) = LE(Len(img), 4)
